@@ -276,14 +276,13 @@ class DelAttrMethod(MethodDescriptor):
                     invalidate_attrs(self, attr)
                 return None
 
-            return mutate_attr(
-                obj=self,
-                attr=attr,
-                value=default,
-                inplace=True,
-                force=True,
-                skip_invalidation=skip_invalidation,
+            # Assign the default the way the constructor does (i.e. through
+            # the attribute's preparers), so that a reset attribute equals
+            # that of a fresh instance.
+            self.__setattr__(
+                attr, default, force=True, skip_invalidation=skip_invalidation
             )
+            return None
 
         # Add reference to original __delattr__
         __delattr__.__raw__ = getattr(
